@@ -826,6 +826,18 @@ def run(prop, tier):
             res.fail(f["site"], f["kind"], f["detail"], f["input"])
     for m in mism[:3]:
         res.proof_break("correspondence engine model vs real engine (stub rules)", m)
+    sweep_cov = {}
+    if prop == "C20":
+        # the real rules: instrumented fix runs of the standard sweep that carry a --fix_only dictionary (every rule
+        # "all", or (rule, reported line) selections): per rule step, fixed == found on a listed (rule, line)
+        import sweep
+
+        agg = sweep.cached_sweep(tier, ("trace",))
+        for f in agg["failures"]:
+            if f["prop"] == "C20" and (f["site"], f["kind"]) not in seen:
+                seen.add((f["site"], f["kind"]))
+                res.fail(f["site"], f["kind"], f["detail"], f.get("input"))
+        sweep_cov = {"real_rule_fix_steps_checked_under_fix_only": agg.get("c20_steps", 0), "sweep_from_cache": agg.get("from_cache")}
     harness_errors = [n for n in res.notes if n.startswith("harness error")]
     if harness_errors:
         print("HARNESS-ERROR property=%s %s" % (prop, harness_errors[0][:300]))
@@ -864,9 +876,10 @@ def run(prop, tier):
                 res.fail("__main__.main", "exitStatusNotIffErrors", "CLI case %s: exit %d, expected %d" % (n, c, w), {"kind": "cli-probe", "case": n})
     pref = {"C13": ("c13",), "C20": ("c20",), "C14": ("c14",)}[prop]
     mine = {k: v for k, v in facts.items() if json.loads(k)[0] in pref or (prop == "C13" and json.loads(k)[0] == "c13fp")}
+    res.coverage.update(sweep_cov)
     res.coverage.update(
         {
-            "evaluations": n_stub + n_real,
+            "evaluations": n_stub + n_real + sweep_cov.get("real_rule_fix_steps_checked_under_fix_only", 0),
             "distinct_nontrivial": len(mine),
             "rule": RULE[prop],
             "samples": samples[:4] + [{"combination": json.loads(k), "count": v} for k, v in sorted(mine.items(), key=lambda kv: -kv[1])[:6]],
